@@ -15,3 +15,5 @@ for d in seeded/*/; do
   fi
 done
 git -C /repo status --short | head -3
+# evidence written while a patch was applied describes the patched tree: restore the committed evidence
+git -C /verif checkout -- evidence
